@@ -27,7 +27,7 @@ from pyvc.interp import Env, Interp, PathState
 from pyvc.parsesym import make_interp as make_parse_interp, run_parse
 from pyvc.values import NAN, DictObj, IdStr, ListObj, Num, Obj, OutOfSubset, PyRaise, ReturnEx, TupleObj, zreal
 
-from .common import REPO, Result, load_known, match_known, run_venv
+from .common import REPO, Result, load_known, match_known, run_venv, tierb_json
 
 # token-type sequence of each natural-order term form -> (coefficient, variable, exponent) as written:
 # entries are ('c', token index, sign) / ('v', token index) / ('lit', value) / None
@@ -179,6 +179,11 @@ def factor_path(I: Interp, ps: PathState) -> Dict[str, Any]:
         early = None
     except ReturnEx as r:
         early = r.value
+    except PyRaise as pr:
+        if phase == "prefix":
+            ob("setup-does-not-raise", False, f"{pr.exc.clsname} at {pr.site}")
+            return {"obligations": obl, "labels": list(ps.labels)}
+        return {"obligations": [], "labels": list(ps.labels), "skip": True}
     v = value.v
     if early is not None:
         if phase != "prefix":
@@ -329,7 +334,7 @@ def run(tier: str, seed: int) -> int:
     if p.returncode not in (0, 1):
         R.engine_errors.append("tier-B failed: " + p.stderr[-300:])
     else:
-        bounded = json.loads(p.stdout)
+        bounded = tierb_json(p, R)
         for f in bounded.get("failures", [])[:8]:
             k = match_known(known, "C16", {"cfg": "tierb", "clause": f["clause"], "shape": {}, "cases": [], "detail": f["detail"]})
             if k is not None:
